@@ -59,11 +59,14 @@ func loadPolicy(p *Program) (*Policy, error) {
 	for i, k := range lit.Keys {
 		kv, _ := k.Int()
 		v := lit.Vals[i]
-		if v.Kind != "struct" || len(v.Vals) != 2 {
+		if v.Kind != "struct" || len(v.Vals) < 2 {
 			return nil, fmt.Errorf("sanitizationContextInfo[%d]: unexpected entry", kv)
 		}
 		var inf scInfo
 		for j, fn := range v.Field {
+			if fn != "name" && fn != "sanitizerName" {
+				continue // further columns of the table (flags read by predicates) are evaluated where they are used
+			}
 			s, ok := v.Vals[j].Str()
 			if !ok {
 				return nil, fmt.Errorf("sanitizationContextInfo[%d].%s is not a constant", kv, fn)
